@@ -289,5 +289,5 @@ def run(ctx):
     nchunks = ctx.evaluations
     ctx.evaluations = ctx.counts.get("datasets", 0) + ctx.counts.get(
         "loop_datasets", 0)
-    ctx.nontrivial = set(range(ctx.counts.get("datasets_nontrivial", 0)))
+    ctx.nontrivial_count = ctx.counts.get("datasets_nontrivial", 0)
     ctx.coverage_extra["lattice_chunks"] = nchunks
